@@ -398,6 +398,54 @@ Definition mk_config (E : env) (fs : list field) (kwargs : list (str * jv)) : re
 Definition copy (E : env) (fs : list field) (c : config) (changes : list (str * jv)) : res config :=
   mk_config E fs (changes ++ c).
 
+(* ------------------------------------------------------------------ which container objects are shared
+
+   dc.replace hands the very objects held by the old instance to __init__, and validate_field only
+   replaces an object when the validator calls setattr.  To make the freshness of containers explicit,
+   every field value of a new instance is tagged with where the object comes from. *)
+Inductive origin : Type :=
+| OGlobal      (* the very object held by the config that was copied (the global one) *)
+| OFresh       (* created during this call: set(value), a new dict, dc.asdict's deep copy, {**a, **b} *)
+| OArg.        (* the object supplied by the caller / by the front matter *)
+
+Definition origin_after (co : option jv) (o : origin) : origin :=
+  match co with Some _ => OFresh | None => o end.
+
+Definition origin_eqb (a b : origin) : bool :=
+  match a, b with OGlobal, OGlobal | OFresh, OFresh | OArg, OArg => true | _, _ => false end.
+
+(* a value whose object can be mutated in place *)
+Definition is_mutable (v : jv) : bool :=
+  match v with JList _ | JSet _ | JDict _ => true | _ => false end.
+
+(* __init__ + __post_init__ with the origin of every argument object *)
+Fixpoint validate_fields_o (E : env) (fs : list field) (c : list (str * jv * origin))
+  : res (list (str * jv * origin)) :=
+  match fs, c with
+  | [], [] => Ok []
+  | f :: fs', (n, v, o) :: c' =>
+      do co <- validate E (f_val f) v;
+      do rest <- validate_fields_o E fs' c';
+      Ok ((n, coerced co v, origin_after co o) :: rest)
+  | _, _ => Raise AssertionError
+  end.
+
+(* copy( **changes): unchanged fields are passed the old instance's own objects *)
+Definition copy_o (E : env) (fs : list field) (c : config) (changes : list (str * jv))
+  : res (list (str * jv * origin)) :=
+  if negb (forallb (fun kv => match find_field (fst kv) fs with Some _ => true | None => false end) (changes ++ c))
+  then Raise TypeError
+  else validate_fields_o E fs
+         (map (fun f => (f_name f, lookup_kw (changes ++ c) f,
+                         match cfg_get (f_name f) changes with Some _ => OArg | None => OGlobal end)) fs).
+
+(* does the new instance hold, in field n, a mutable object that the global config also holds? *)
+Fixpoint shares_field (n : str) (c : list (str * jv * origin)) : bool :=
+  match c with
+  | [] => false
+  | (k, v, o) :: r => if str_eqb k n then origin_eqb o OGlobal && is_mutable v else shares_field n r
+  end.
+
 (* ------------------------------------------------------------------ merge_file_level *)
 
 Inductive warning : Type :=      (* all are MystWarnings.MD_TOPMATTER *)
